@@ -153,9 +153,8 @@ def hmac_keyblock_events(ck_ob, f, label, mask, keyarg, lenarg, tagname, statear
         no_data_branches(f, paths)
         rets = [p for p in paths if p.end[0] == "ret"]
         if len(paths) != 1 or len(rets) != 1:
-            c(False, "%s-single-path(%s)" % (tagname, cname), "", "key length class %s does not give one straight path (%d paths; ends %s): loop not resolved or data-dependent control"
-              % (cname, len(paths), [p.end[0] for p in paths][:4]))
-            continue
+            raise Broken("HMAC %s: key length class %s does not give one straight path (%d paths; ends %s): loop not resolved or data-dependent control"
+                         % (tagname, cname, len(paths), [p.end[0] for p in paths][:4]))
         p = rets[0]
         ev = calls(p)
         if expect_prefix:
@@ -316,7 +315,7 @@ def check_hkdf(ck_ob, mod, label):
         ck_ob(okc, "SEQ", f.name, "extract-counters[%s]" % label, "block counter = 1, nothing buffered (position 32)",
               "after extract counter=%s position=%s (expected 1 and 32)" % (p.lfmem.get((ST, CNT, 1)), p.lfmem.get((ST, POSN, 1))), w0)
     else:
-        ck_ob(False, "SEQ", f.name, "extract[%s]" % label, "", "extract is not a straight path", w0)
+        raise Broken("tinyjambu_hkdf_extract is not a straight path: unrecognised shape")
     n += 2
     # ---- expand
     f = mod.fn("tinyjambu_hkdf_expand")
@@ -487,8 +486,9 @@ def check_pbkdf2(ck_ob, mod, label):
     ophis = [f.insts[i] for i in f.blocks[oh].insts if f.insts[i].op == "phi"]
     pcur = [I for I in ophis if (I.get("ty") or "").endswith("*")]
     pint = [I for I in ophis if not (I.get("ty") or "").endswith("*")]
-    if len(pcur) != 1 or len(pint) != 2:
+    if len(pcur) != 1 or len(pint) not in (1, 2):
         raise Broken("tinyjambu_pbkdf2: expected cursor, remaining length and block number at the outer loop head (found %d pointer, %d integer phis)" % (len(pcur), len(pint)))
+    arr = {"on": len(pint) == 1, "obj": None, "off": 0, "X": None}    # block number kept as 4 big-endian bytes in a local array instead of an integer
     cur = ("hdp", pcur[0].id)
     n = 0
     seen = set()
@@ -502,16 +502,37 @@ def check_pbkdf2(ck_ob, mod, label):
                     remphi = I
                 elif ini is not None and not is_word(ini) and ini.const() == 1:
                     bnphi = I
-            okc = p.env.get(("init", pcur[0].id)) == Lf.s(A["out"]) and remphi is not None and bnphi is not None
+            okc = p.env.get(("init", pcur[0].id)) == Lf.s(A["out"]) and remphi is not None and (bnphi is not None or arr["on"])
+            arr["entry"] = p
             c("BLOCKS", okc, "start", "block loop starts at out with outlen remaining and block number 1", "block loop starts with cursor %s, integers %s"
               % (p.env.get(("init", pcur[0].id)), [p.env.get(("init", I.id)) for I in pint]))
             seen.add("entry")
-    if remphi is None or bnphi is None:
-        c("BLOCKS", False, "start", "", "cannot identify remaining length and block number at the outer loop head (block number must start at 1)")
-        return 1
+    if remphi is None or (bnphi is None and not arr["on"]):
+        raise Broken("tinyjambu_pbkdf2: cannot identify remaining length and block number at the outer loop head: unrecognised shape")
     rem = ("hd", remphi.id)
-    BN = gf2.sym_word(("hdw", bnphi.id), 64)
-    int32be = tuple(tuple(BN[8 * (3 - k): 8 * (3 - k) + 8]) for k in range(4))
+    if arr["on"]:
+        BN = None
+        int32be = None
+        for p in ps:
+            ev = calls(p)
+            if [e[2] for e in ev][:4] == ["tinyjambu_hmac_init", "tinyjambu_hmac_update", "tinyjambu_hmac_update", "tinyjambu_hmac_finalize"] and ev[2][3][1].startswith("alloca") and ev[2][3][2] == "4":
+                bo = _objoff(ev[2][3][1])
+                if arr["obj"] is not None and (arr["obj"], arr["off"]) != bo:
+                    raise Broken("tinyjambu_pbkdf2: block number array not unique")
+                arr["obj"], arr["off"] = bo
+        if arr["obj"] is None:
+            raise Broken("tinyjambu_pbkdf2: the block number is neither a loop-carried integer nor a local 4-byte array absorbed by the first PRF")
+        pe = arr.get("entry")
+        ini = [pe.mem.get((arr["obj"], arr["off"] + k)) for k in range(4)] if pe is not None else None
+        if pe is not None and all(b is None for b in ini):
+            lf = pe.lfmem.get((arr["obj"], arr["off"], 4))        # the initialiser stored as one 32-bit constant (little-endian host)
+            if lf is not None and lf.const() is not None:
+                ini = [gf2.const_word((lf.const() >> (8 * k)) & 0xFF, 8) for k in range(4)]
+        okst = ini is not None and all(b is not None for b in ini) and [gf2.is_const(list(b)) for b in ini] == [0, 0, 0, 1]
+        c("BLOCKS", okst, "start-blocknum", "the block number array starts as 00 00 00 01", "the block number array starts as %s" % (ini and [b is not None and gf2.is_const(list(b)) for b in ini]))
+    else:
+        BN = gf2.sym_word(("hdw", bnphi.id), 64)
+        int32be = tuple(tuple(BN[8 * (3 - k): 8 * (3 - k) + 8]) for k in range(4))
 
     def seg_kind(p):
         ev = calls(p)
@@ -536,6 +557,11 @@ def check_pbkdf2(ck_ob, mod, label):
             # ---- first PRF of a block
             st = ev[0][3][0]
             full = remc is None
+            if arr["on"]:
+                # the 4 bytes absorbed must be the contents the local array had at the start of this path (big-endian by position)
+                int32be = tuple(tuple(hashbyte(p, arr["obj"], arr["off"] + k)) for k in range(4))
+                if ev[2][3][1] != "alloca:%d" % arr["obj"][1] + ("+%d" % arr["off"] if arr["off"] else ""):
+                    int32be = None
             okU1 = st.startswith("alloca") and ev[0][3] == (st, PW, PL) and ev[1][3] == (st, SALT, SL) and ev[2][3][0] == st and ev[2][3][2] == "4" \
                 and ev[2][4] == int32be and ev[3][3][:3] == (st, PW, PL)
             c("F", okU1, "U1(%s)" % ("full" if full else "last"), "U1 = PRF(P, S || INT32BE(block number)): init(P); update(S); update(4 big-endian bytes of the block number); finalize",
@@ -574,7 +600,7 @@ def check_pbkdf2(ck_ob, mod, label):
             else:
                 c("F", False, "after-U1", "", "after the first PRF: %s" % rn[:3])
                 continue
-            n += _pb_tail(c, f, ex, p, after, outs, tb, T, cur, rem, pcur, remphi, bnphi, BN, full, remc, st)
+            n += _pb_tail(c, f, ex, p, after, outs, tb, T, cur, rem, pcur, remphi, bnphi, BN, full, remc, st, arr=arr)
             continue
         if names[:3] == ["tinyjambu_hmac_reinit", "tinyjambu_hmac_update", "tinyjambu_hmac_finalize"] and p.end[0] == "backedge" and p.end[1] != oh:
             # ---- generic chain iteration
@@ -611,7 +637,7 @@ def check_pbkdf2(ck_ob, mod, label):
             cls = None
             remc2 = p.eqs.get(rem)
             full = remc2 is None
-            n += _pb_tail(c, f, ex, p, ev[1:], outs, None, None, cur, rem, pcur, remphi, bnphi, BN, full, remc2, ev[0][3][0], from_chain=True)
+            n += _pb_tail(c, f, ex, p, ev[1:], outs, None, None, cur, rem, pcur, remphi, bnphi, BN, full, remc2, ev[0][3][0], from_chain=True, arr=arr)
             continue
         c("F", False, "unexpected-segment", "", "unexpected event sequence %s (end %s)" % (names[:5], p.end[0]))
     c("F", {"count<=1", "count>1", "chain", "chain-exit"} <= seen, "classes", "all segment classes found (count <= 1, count > 1, generic chain iteration, chain exit)", "segment classes found: %s" % sorted(seen))
@@ -635,7 +661,7 @@ def _objoff(r):
         return (kind, num), off
 
 
-def _pb_tail(c, f, ex, p, after, outs, tb, T, cur, rem, pcur, remphi, bnphi, BN, full, remc, st, from_chain=False):
+def _pb_tail(c, f, ex, p, after, outs, tb, T, cur, rem, pcur, remphi, bnphi, BN, full, remc, st, from_chain=False, arr=None):
     """what follows F: free; full block -> advance; last partial block -> copy outlen bytes, wipe T; final wipe of U"""
     n = 0
     an = [e[2] for e in after]
@@ -643,13 +669,22 @@ def _pb_tail(c, f, ex, p, after, outs, tb, T, cur, rem, pcur, remphi, bnphi, BN,
         c("F", an[:1] == ["tinyjambu_hmac_free"] or True, "free", "HMAC state freed after F", "")
     if full:
         if p.end[0] != "backedge":
-            c("BLOCKS", False, "full-block-continues", "", "a full block does not continue with the block loop (end %s)" % p.end[0])
-            return 1
-        bc, br, bb = p.env.get(("back", pcur[0].id)), p.env.get(("back", remphi.id)), p.env.get(("back", bnphi.id))
-        okb = bc == Lf({cur: 1, 1: 32}) and br == Lf({rem: 1, 1: -32}) and is_word(bb) and bb == gf2.wadd(BN, gf2.const_word(1, 64))[0]
+            raise Broken("tinyjambu_pbkdf2: a full block does not continue with the block loop (path ends with %s): unrecognised shape" % p.end[0])
+        bc, br = p.env.get(("back", pcur[0].id)), p.env.get(("back", remphi.id))
+        if arr and arr["on"]:
+            if arr["obj"] is None:
+                raise Broken("tinyjambu_pbkdf2: block number carrier not identified on this path")
+            newb = [p.mem.get((arr["obj"], arr["off"] + k)) for k in range(4)]
+            X = [hashbyte(p, arr["obj"], arr["off"] + k) for k in range(4)]
+            okinc, why_inc = _check_be_inc(newb, X)
+        else:
+            bb = p.env.get(("back", bnphi.id))
+            okinc = is_word(bb) and bb == gf2.wadd(BN, gf2.const_word(1, 64))[0]
+            why_inc = "not the loop-carried value + 1"
+        okb = bc == Lf({cur: 1, 1: 32}) and br == Lf({rem: 1, 1: -32}) and okinc
         okg = ex._range(p, Lf.s(rem))[0] >= 32
         c("BLOCKS", okb and okg, "advance%s" % ("-chain" if from_chain else ""), "full block: out += 32, outlen -= 32, block number += 1 (only when >= 32 bytes remain)",
-          "after a full block: cursor %s remaining %s block number +1: %s guard>=32: %s" % (bc, br, is_word(bb) and bb == gf2.wadd(BN, gf2.const_word(1, 64))[0], okg))
+          "after a full block: cursor %s remaining %s block number +1: %s guard>=32: %s" % (bc, br, okinc or why_inc, okg))
         if tb is not None:
             okw = all(tuple(outs.get((cur, i), ())) == tb[i] for i in range(32))
             c("BLOCKS", okw, "full-block-bytes", "the 32 bytes at the cursor hold T", "output bytes of a full block are not T")
@@ -775,7 +810,11 @@ def check_prng(ck_ob, mod, label):
     seen = set()
     import random
     rnd = random.Random(20261003)
+    outer = [l["header"] for l in f.loops if l.get("parent", -1) == -1]
     for p in ps:
+        if p.end[0] in ("loop-entry", "backedge") and p.end[1] not in outer:
+            raise Broken("tinyjambu_prng_generate: an inner loop whose trip count is not a decided constant (header block %s): the state update cannot be summarised per block "
+                         "(a data-dependent loop bound is C07's matter)" % p.end[1])
         ev = calls(p)
         names = [e[2] for e in ev]
         if "tinyjambu_hash" not in names:
@@ -984,3 +1023,57 @@ def hmac_premises(ck, mod, rule, label="H/N0"):
     def ob(cond, r_, fn, cons, ok, bad, where=None):
         return ck.ob(cond, rule, fn, cons, ok, bad, where=where)
     return check_hmac(ob, mod, label)
+
+
+def _check_be_inc(newb, X):
+    """newb (4 byte terms, most significant first) == X + 1 as a 32-bit big-endian integer?  X = 4 bytes of plain symbols.
+    Decided by the support sets (byte k may depend on bytes k..3 only and must depend on byte k) and by evaluating the
+    terms on carry-chain corner values; a mismatch is a concrete counterexample of the term functions."""
+    if X is None or any(b is None for b in newb):
+        return False, "block number bytes not written / not identified"
+    if any(bit is gf2.TOP for by in newb for bit in by):
+        raise Broken("tinyjambu_pbkdf2: the incremented block number is not representable in the term domain")
+    varsX = [[next(iter(bit))[1:] for bit in by] for by in X]
+    memo = {}
+
+    def supp(bit):
+        r = memo.get(id(bit))
+        if r is not None:
+            return r[1]
+        out = set()
+        for a in bit:
+            if a[0] == "v":
+                out.add((a[1], a[2]))
+            elif a[0] in ("&", "|"):
+                for part in a[1]:
+                    out |= supp(part)
+        memo[id(bit)] = (bit, out)
+        return out
+    for k in range(4):
+        sk = set()
+        for bit in newb[k]:
+            sk |= supp(bit)
+        allowed = {v for j in range(k, 4) for v in varsX[j]}
+        if not sk <= allowed:
+            return False, "byte %d of the new block number depends on something other than bytes %d..3 of the old one" % (k, k)
+        if not set(varsX[k]) <= sk:
+            return False, "byte %d of the new block number does not depend on the old byte %d" % (k, k)
+    for x in (0, 1, 2, 0xFE, 0xFF, 0x100, 0x1FF, 0xFFFF, 0x10000, 0xFFFFFF, 0x1000000, 0x7FFFFFFF, 0x12345678, 0xFFFFFFFE, 0x00FF00FF, 0xABCDEFFF):
+        asg = {}
+        for k in range(4):
+            bv = (x >> (8 * (3 - k))) & 0xFF
+            for j, var in enumerate(varsX[k]):
+                asg[var] = (bv >> j) & 1
+        got = 0
+        em = {}
+        for k in range(4):
+            bv = 0
+            for j, bit in enumerate(newb[k]):
+                e_ = gf2.evaluate(bit, asg, em)
+                if e_ is None:
+                    raise Broken("tinyjambu_pbkdf2: block number term not evaluable")
+                bv |= e_ << j
+            got = (got << 8) | bv
+        if got != ((x + 1) & 0xFFFFFFFF):
+            return False, "for block number %#010x the next one is %#010x instead of %#010x" % (x, got, (x + 1) & 0xFFFFFFFF)
+    return True, None
